@@ -9,6 +9,8 @@ with values (`Buildable`) and every probe key / prefix.
 import LinVerif.Lemmas.C20Get
 import LinVerif.Lemmas.C20SeekList
 import LinVerif.Lemmas.C20Merge
+import LinVerif.Lemmas.C20Blocks
+import LinVerif.Lemmas.C20Collect
 import LinVerif.Lemmas.C20Bits
 import LinVerif.Lemmas.C20Louds
 import LinVerif.Lemmas.C20LoudsGet
@@ -19,6 +21,7 @@ import LinVerif.Lemmas.C20Reuse
 import LinVerif.Lemmas.C20PrevMachine
 import LinVerif.Lemmas.C20Walk
 import LinVerif.Lemmas.C20WireErr
+import LinVerif.Lemmas.C20BucketWire
 import LinVerif.Lemmas.C20Words
 import LinVerif.Model.Louds
 import LinVerif.Model.TrieBucket
@@ -236,6 +239,63 @@ theorem bucket_write_eq_sorted {bs : Nat} (hbs : 1 ≤ bs) {kvs : List KV} (hd :
     ∃ r, buildAll (writeBlocks bs kvs) = some r ∧ (∀ t ∈ r, Built t) ∧ r.flatMap iter = sortKVs kvs :=
   builder_write_spec hbs hd ((bytesOK_iff kvs).1 hb) hE
 
+/-- **the blocks partition the key list, for every size** (round 12). `TrieBucketBuilder.Write` as the
+Go code computes it — `numBlocks` from `len/blockSize` and `len%blockSize`, then the slices
+`kvs.Keys[i*blockSize : min(i*blockSize+blockSize, len)]` (`writeBlocksGo`: `numBlocksGo`, `blockBounds`,
+`goSlice`, `blocksLoop`) — for EVERY key count and EVERY block size ≥ 1: no slice expression panics, the
+blocks concatenated are exactly the sorted pairs (nothing dropped, nothing twice), there are
+`⌈len/blockSize⌉` of them, none is empty or longer than `blockSize`, and every block but the last is full.
+They are the `take`/`drop` blocks `writeBlocks` that the other bucket theorems are stated on. -/
+theorem builder_blocks_partition {bs : Nat} (hbs : 1 ≤ bs) (kvs : List KV) :
+    ∃ blocks, writeBlocksGo bs kvs = some blocks ∧ blocks = writeBlocks bs kvs ∧
+      blocks.flatten = sortKVs kvs ∧
+      blocks.length = numBlocksGo kvs.length bs ∧
+      (∀ b ∈ blocks, b ≠ [] ∧ b.length ≤ bs) ∧ (∀ b ∈ blocks.dropLast, b.length = bs) := by
+  have hlen : (sortKVs kvs).length = kvs.length := (sortKVs_perm kvs).length_eq
+  refine ⟨writeBlocks bs kvs, writeBlocksGo_eq bs hbs kvs, rfl, ?_, ?_, ?_, ?_⟩
+  · unfold writeBlocks
+    exact chunks_flatten bs hbs _ _ (by rw [hlen]; exact Nat.le_refl _)
+  · unfold writeBlocks
+    rw [chunks_length bs hbs _ _ (by rw [hlen]; exact Nat.le_refl _), hlen]
+  · intro b hb
+    unfold writeBlocks at hb
+    exact ⟨(chunks_mem bs hbs _ _ b hb).1, chunks_length_le bs _ _ b hb⟩
+  · intro b hb
+    unfold writeBlocks at hb
+    exact chunks_dropLast_full bs hbs _ _ b hb
+
+/-- the loop of `TrieBucketBuilder.Write` at any block index: started at block `i` with the count of
+what is left, it walks exactly the blocks of the rest (the invariant behind `builder_blocks_partition`) -/
+theorem builder_loop_invariant {bs : Nat} (hbs : 1 ≤ bs) (s : List KV) (i : Nat) (hi : i * bs ≤ s.length) :
+    blocksLoop bs s (numBlocksGo (s.length - i * bs) bs) i = some (chunks bs s.length (s.drop (i * bs))) :=
+  blocksLoop_eq_chunks bs hbs s s.length i hi (Nat.sub_le _ _)
+
+/-- `TrieBucketBuilder.Write` end to end on the code's own arithmetic: the tries built from the blocks
+the Go loop slices out hold exactly the sorted pairs (with `bucket_write_eq_sorted`) -/
+theorem builder_write_go_eq_sorted {bs : Nat} (hbs : 1 ≤ bs) {kvs : List KV} (hd : DistinctKeys kvs)
+    (hb : bytesOK kvs = true) (hE : (∀ v, ([], v) ∉ kvs) ∨ (2 ≤ bs ∧ 2 ≤ kvs.length)) :
+    ∃ blocks r, writeBlocksGo bs kvs = some blocks ∧ buildAll blocks = some r ∧ (∀ t ∈ r, Built t) ∧
+      r.flatMap iter = sortKVs kvs := by
+  obtain ⟨r, h1, h2, h3⟩ := bucket_write_eq_sorted hbs hd hb hE
+  exact ⟨_, r, writeBlocksGo_eq bs hbs kvs, h1, h2, h3⟩
+
+/-- `blockSize = 0`: `len(keys) / b.blockSize` is an integer division by zero — the model answers
+`none` (panic), never a default. No production caller passes 0 (the merger's `model.NewTrieBucket()` uses
+`math.MaxUint16`, the index flusher a positive constant), so it is outside `builder_blocks_partition`. -/
+theorem builder_blockSize_zero_panics (kvs : List KV) : writeBlocksGo 0 kvs = none := by
+  simp [writeBlocksGo]
+
+/-- non-vacuity at the sizes a "fold the small remainder" rewrite disagrees on: 9 keys, blockSize 8
+(remainder = blockSize/8): a full block and a block of one; 17 keys: 8 + 8 + 1; 16 keys: no third block -/
+example : blocksLoop 8 ((List.range 9).map (fun i => ([i], i))) (numBlocksGo 9 8) 0 =
+    some [(List.range 8).map (fun i => ([i], i)), [([8], 8)]] := by decide
+example : (blocksLoop 8 ((List.range 17).map (fun i => ([i], i))) (numBlocksGo 17 8) 0).map (·.map List.length) =
+    some [8, 8, 1] := by decide
+example : (blocksLoop 8 ((List.range 16).map (fun i => ([i], i))) (numBlocksGo 16 8) 0).map (·.map List.length) =
+    some [8, 8] := by decide
+example : numBlocksGo 72 64 = 2 ∧ blockBounds 72 64 1 = (64, 72) ∧ numBlocksGo 128 64 = 2 ∧
+    blockBounds 128 64 1 = (64, 128) := by decide
+
 /-- **merge = rebuild from the union**: `TrieBucket.Write` (index/v1 `indexKVMerger.Merge`) on
 built tries with pairwise distinct keys yields built tries holding a permutation of all pairs … -/
 theorem merge_eq_union (step : Bool) {bs : Nat} (hbs : 1 ≤ bs) {ts : List Node} (hts : ∀ t ∈ ts, Built t)
@@ -353,6 +413,34 @@ theorem bucket_find_eq_union_filter (step : Bool) {ts : List Node} (hts : ∀ t 
   funext kv
   exact Bool.and_comm _ _
 
+/-- **`CollectKVs` (value → key) over any list of tries** (round 12): the two nested loops with the early
+`return` once the wanted set is empty write exactly what a scan of ALL pairs of the union without any early exit
+writes (`firstHits`: in enumeration order, the first pair carrying a wanted value), appended to what the
+caller's map held — for every list of built tries, every wanted set, both `Seek` variants -/
+theorem collect_eq_full_scan (step : Bool) {ts : List Node} (hts : ∀ t ∈ ts, Built t) (vs : List Nat)
+    (res : List (Nat × Key)) :
+    collectTries step ts vs res = res ++ firstHits (ts.flatMap iter) vs := by
+  rw [collectTries_spec, bucketPrefix_eq_filter step hts []]
+  congr 2
+  rw [List.filter_eq_self]
+  intro kv _
+  rfl
+
+/-- … hence, when every value sits on one pair only (ids are assigned once), `CollectKVs` answers exactly the
+inverse map restricted to the wanted values: `(v ↦ k)` is written iff `v` is wanted and `(k, v)` is a pair of
+the union; nothing is skipped because an earlier trie or an earlier pair already matched -/
+theorem collect_mem_iff (step : Bool) {ts : List Node} (hts : ∀ t ∈ ts, Built t)
+    (hv : (ts.flatMap iter).Pairwise (fun a b => a.2 ≠ b.2)) {vs : List Nat} (hnd : vs.Nodup) (v : Nat) (k : Key) :
+    (v, k) ∈ collectTries step ts vs [] ↔ (v ∈ vs ∧ (k, v) ∈ ts.flatMap iter) := by
+  rw [collect_eq_full_scan step hts, List.nil_append]
+  exact mem_firstHits _ vs hnd hv v k
+
+/-- non-vacuity on the bucket {"a"→1, "z"→3} + {"m"→2}: wanted {2, 3, 9} needs both tries; wanted {1} returns
+after the first pair; an empty wanted set writes nothing -/
+example : (buildAll [[([97], 1), ([122], 3)], [([109], 2)]]).map (fun ts => collectTries true ts [2, 3, 9] []) = some [(3, [122]), (2, [109])] := by decide
+example : (buildAll [[([97], 1), ([122], 3)], [([109], 2)]]).map (fun ts => collectTries true ts [1] []) = some [(1, [97])] := by decide
+example : (buildAll [[([97], 1), ([122], 3)], [([109], 2)]]).map (fun ts => collectTries true ts [] []) = some [] := by decide
+
 /-- **`Suggest` over any list of tries** = the first `limit` keys (at least one) with the prefix of
 the sorted union -/
 theorem bucket_suggest_eq_union (step : Bool) {ts : List Node} (hts : ∀ t ∈ ts, Built t)
@@ -464,6 +552,55 @@ theorem unmarshal_truncated_never_ok_encode (t : Node) (hb : WireBounded (toWire
     intro n hn; unfold U32 rankSparseBlockSize at *; omega
   exact unmarshalR_truncated _ (wireOK_encode t hb)
     ⟨h4, ⟨hfit _ hb.hasChildBits⟩, ⟨hfit _ hb.pfxBits⟩, ⟨hfit _ hb.sfxBits⟩⟩ m hm
+
+/-! #### the bucket framing around the tries (round 12; `Model/BucketWire.lean`) -/
+
+/-- **`TrieBucket.Unmarshal` undoes `TrieBucketBuilder.Write`'s framing**: the value written by one builder
+call — per block `uint32(MarshalSize())` little endian, then the image — is read back by the loop of
+`TrieBucket.Unmarshal` (size word, `end := 4 + size` in uint32, the unchecked `block[4:end]` / `block[:end]` /
+`block[end:]` slices, `UnmarshalBinary` on exactly the image) as exactly the written tries, in block order, APPENDED
+to whatever the object already holds; every entry's `buf` is its whole frame. For any number of tries of any size
+whose frame length fits `uint32` (`BucketFrameOK`). -/
+theorem bucket_unmarshal_frames (ws : List Wire) (h : ∀ w ∈ ws, BucketFrameOK w) (acc : List BucketWire.Entry) :
+    BucketWire.bucketUnmarshal acc (BucketWire.bucketBytes ws) = .ok (acc ++ ws.map entryOf) :=
+  bucketUnmarshal_frames ws h acc
+
+/-- a bucket object filled by one `Unmarshal` per stored value (index/v1 `GetBucket`: every flushed value of the
+key; `indexKVMerger.Merge`: every input block) holds the tries of all values, in order -/
+theorem bucket_load_all_values (wss : List (List Wire)) (h : ∀ ws ∈ wss, ∀ w ∈ ws, BucketFrameOK w) :
+    BucketWire.loadAll [] (wss.map BucketWire.bucketBytes) = .ok (wss.flatten.map entryOf) := by
+  have := loadAll_frames wss h []
+  simpa using this
+
+/-- the tries a merge keeps are copied as their `buf` (`w.Write(tree.buf)`): those bytes are again a
+well-framed value holding exactly the kept tries -/
+theorem bucket_copied_frames_reload (ws : List Wire) (h : ∀ w ∈ ws, BucketFrameOK w) :
+    BucketWire.bucketUnmarshal [] (BucketWire.copiedBytes (ws.map entryOf)) = .ok (ws.map entryOf) := by
+  rw [copiedBytes_entries]
+  have := bucketUnmarshal_frames ws h []
+  simpa using this
+
+/-- the encoding of every tree is frameable under the size bounds only -/
+theorem bucketFrameOK_encode (t : Node) (hb : WireBounded (toWire (encode t)))
+    (h4 : U32 (4 + (encode t).labels.length)) (hs : U32 (4 + marshalSize (toWire (encode t)))) :
+    BucketFrameOK (toWire (encode t)) := by
+  have hfit : ∀ n, U32 n → U32 ((n / rankSparseBlockSize + 1) * 4) := by
+    intro n hn; unfold U32 rankSparseBlockSize at *; omega
+  exact ⟨wireOK_encode t hb, ⟨h4, ⟨hfit _ hb.hasChildBits⟩, ⟨hfit _ hb.pfxBits⟩, ⟨hfit _ hb.sfxBits⟩⟩, hs⟩
+
+-- non-vacuity: two flushed values, the first with two tries, loaded into one object
+set_option maxRecDepth 16000 in
+example : ((build [([97], 1)]).bind fun t1 => (build [([98], 2), ([99, 100], 3)]).map fun t2 =>
+    let w1 := toWire (encode t1); let w2 := toWire (encode t2)
+    BucketWire.loadAll [] [BucketWire.bucketBytes [w1, w2], BucketWire.bucketBytes [w2]] ==
+      .ok [entryOf w1, entryOf w2, entryOf w2]) = some true := by decide
+/-- damaged framing: a size word pointing beyond the value panics (`block[4:end]`), fewer than 4 bytes panic,
+`end` wrapping below 4 panics; a value cut at a frame boundary loads as a shorter bucket (no count, no checksum
+at this level — kv tables carry the checksum) -/
+example : BucketWire.bucketUnmarshal [] [200, 0, 0, 0, 1, 2, 3] = .panic := by decide
+example : BucketWire.bucketUnmarshal [] [1, 0] = .panic := by decide
+example : BucketWire.bucketUnmarshal [] [254, 255, 255, 255, 1, 2, 3] = .panic := by decide
+example : BucketWire.bucketUnmarshal [] [4, 0, 0, 0, 1, 0, 0, 0] = .err "eof" := by decide
 
 /-- `UnmarshalBinary` looks only at the bytes it consumes: bytes after an accepted image change nothing -/
 theorem unmarshal_ignores_trailing_bytes (b s : List Nat) (w : Wire) (h : unmarshalR b = .ok w) :
@@ -938,6 +1075,34 @@ theorem gen_bucket_write_calls : Generated.C20.bucketWriteCalls =
 theorem gen_bucket_builder_calls : Generated.C20.bucketBuilderWriteCalls =
     ["sort.Sort", "len", "len", "len", "len", "builder.Reset", "builder.Build", "builder.MarshalSize", "uint32",
      "LittleEndian.PutUint32", "writer.Write", "builder.Write"] := rfl
+
+/-- the whole body of `TrieBucketBuilder.Write`, statement by statement: the block count
+(`numBlocksGo`), the bounds of block `i` (`blockBounds`), the slices handed to `Build` (`goSlice`), the loop
+(`blocksLoop`). A change of the count, of a bound or of the clamp re-opens this obligation (and the model
+must be re-read against the new text). -/
+theorem gen_bucket_builder_write_body : Generated.C20.bucketBuilderWriteStmts =
+    ["kvs := &KVs{Keys: keys, IDs: ids}", "sort.Sort(kvs)",
+     "numBlocks := len(keys) / b.blockSize", "if len(keys)%b.blockSize != 0 {", "numBlocks++", "}",
+     "for i := 0; i < numBlocks; i++ {",
+     "start := i * b.blockSize", "end := start + b.blockSize", "if end > len(keys) {", "end = len(keys)", "}",
+     "b.builder.Reset()", "b.builder.Build(kvs.Keys[start:end], kvs.IDs[start:end])",
+     "size := b.builder.MarshalSize()", "binary.LittleEndian.PutUint32(b.sizeBuf[0:4], uint32(size))",
+     "if err != nil {", "return err", "}", "if err != nil {", "return err", "}", "}", "return nil"] := rfl
+
+/-- `TrieBucket.CollectKVs` statement by statement (`collectPairs` / `collectTries`: test, write, remove, the
+early return AFTER the write, every trie in turn) -/
+theorem gen_collect_body : Generated.C20.collectKVsStmts =
+    ["range b.kvs {", "itr := kv.tree.NewPrefixIterator(nil)", "for ; itr.Valid(); {", "val := itr.Value()",
+     "if values.Contains(val) {", "result[val] = string(itr.Key())", "values.Remove(val)", "}",
+     "if values.IsEmpty() {", "return", "}", "itr.Next()", "}", "}"] := rfl
+
+/-- `TrieBucket.Unmarshal` statement by statement (`BucketWire.unmarshalLoop`: size word, `end := 4 + size`,
+the image `block[4:end]`, the entry's `buf = block[:end]`, advance by `end`) -/
+theorem gen_bucket_unmarshal_body : Generated.C20.bucketUnmarshalStmts =
+    ["for ; len(block) > 0; {", "size := binary.LittleEndian.Uint32(block[:4])", "tree := getTrieFn()",
+     "end := 4 + size", "err := tree.UnmarshalBinary(block[4:end])", "if err != nil {", "return err", "}",
+     "b.kvs = append(b.kvs, &trieEntry{tree: tree, buf: block[:end]})", "block = block[end:]", "}",
+     "return nil"] := rfl
 
 /-- `indexKVMerger.Merge`: unmarshal every block into one bucket, then `TrieBucket.Write` -/
 theorem gen_merger_calls : Generated.C20.mergerCalls =
